@@ -356,6 +356,7 @@ func cmdFormat(args []string) *Result {
 		}
 		src2 := newSource(21)
 		src2.mixed(n, emit)
+		src2.structured(thorough, emit)
 		fragmentProducts(2, fragments, func(d []byte) {
 			if thorough || src2.rng.Intn(4) == 0 {
 				emit(d)
